@@ -502,6 +502,8 @@ class WriterThread(threading.Thread):
         self.queue = queue.SimpleQueue()
         self.write_indexes = [i for i in INDEXES.values() if i.enabled]
         self.processing = False
+        # ids of the events that were acknowledged and queued, until their "add" has been processed
+        self.in_flight = set()
 
     def run(self):
         env = self.env
@@ -558,6 +560,9 @@ class WriterThread(threading.Thread):
             except Exception:
                 log.exception("writer")
             finally:
+                if operation == "add":
+                    # written (or failed): from now on the store answers for this id
+                    self.in_flight.discard(args[0].id)
                 self.processing = False
 
     def _delete_event(self, txn, event: Event, log):
@@ -710,10 +715,17 @@ class LMDBStorage(BaseStorage):
 
         if not event.is_ephemeral:
             self.check_storable(event)
+            event_id = event.id_bytes
+            # already queued for writing (first test: the writer forgets an id after
+            # its transaction) or already stored: not written and not broadcast again.
+            # No await between the tests and the registration below.
+            in_flight = self.writer_thread.in_flight
+            if event.id in in_flight:
+                return event, False
             with self.db.begin(buffers=True) as txn:
-                if get_event_data(txn, event.id_bytes):
-                    # already stored: not written and not broadcast again
+                if get_event_data(txn, event_id):
                     return event, False
+            in_flight.add(event.id)
             self.writer_queue.put(("add", [event]))
         await self.post_save(event)
         return event, True
